@@ -1,6 +1,7 @@
 import LibInj.Sqli.Check
 import LibInj.Proofs.QuoteShift
 import LibInj.Proofs.QuoteFold
+import LibInj.Proofs.QuoteSlot
 set_option linter.unusedSimpArgs false
 /-! # C12 — IsSQLi equals the ordered disjunction of its documented parsing contexts
 
@@ -102,6 +103,41 @@ theorem quote_shift_fingerprint : quote_shift_statement := by
     · exact fingerprint_quote s hs 34 _ _ (Or.inr rfl) (by decide) (by decide) (by decide) (by decide) (by decide) (by decide)
   rw [h1, h2] at key
   exact (Except.ok.inj key).symm
+
+/-- **C12, quote shift, verdicts.** Same fingerprint, same MySQL re-parse flag, and the same verdict unless
+the fingerprint is `sos` or `s&s` (whose whitelist rule looks at the opening-quote mark). The one other
+whitelist rule that could tell the readings apart — `1c`, which reads the input at the first token's offset —
+is never reached: the string token of a quote reading stays in slot 0 through `fold` (`Proofs/QuoteSlot`),
+so the fingerprint begins with `s` or is `X`. -/
+theorem quote_shift_verdict (s : Bytes) (q : UInt8) (d : Nat) (hs : s ≠ []) (hq : q = 39 ∨ q = 34)
+    (hd : d = flagAnsi ∨ d = flagMysql) (a b : Bool × Bytes × Bool)
+    (ha : pass (q :: s) (flagQuoteNone ||| d) = .ok a)
+    (hb : pass s ((if q = 39 then flagQuoteSingle else flagQuoteDouble) ||| d) = .ok b) :
+    a.2.1 = b.2.1 ∧ a.2.2 = b.2.2 ∧ (b.2.1 ≠ bs "sos" → b.2.1 ≠ bs "s&s" → a.1 = b.1) := by
+  have key : ∀ (F1 F2 : Nat), (hasFlag F1 flagQuoteSingle || hasFlag F1 flagQuoteDouble) = false → F1 ≠ 0 →
+      (hasFlag F2 flagQuoteSingle || hasFlag F2 flagQuoteDouble) = true → F2 ≠ 0 → flag2Delim F2 = q → F1 = asIs F2 →
+      pass (q :: s) F1 = .ok a → pass s F2 = .ok b →
+      a.2.1 = b.2.1 ∧ a.2.2 = b.2.2 ∧ (b.2.1 ≠ bs "sos" → b.2.1 ≠ bs "s&s" → a.1 = b.1) := by
+    intro F1 F2 g1 g2 g3 g4 g5 g6 ha hb
+    obtain ⟨r1, r2, r3⟩ := pass_quote s hs q F1 F2 hq g1 g2 g3 g4 g5 g6 a b ha hb
+    refine ⟨r1, r2, fun n1 n2 => r3 n1 n2 ?_⟩
+    -- the fingerprint of the quote reading is not `1c`
+    obtain ⟨st, hst, _⟩ := fingerprint_ok s F2
+    have := fingerprint_inq_not1c s hs q F2 hq g3 g4 g5 st hst
+    unfold pass at hb
+    rw [hst] at hb
+    simp only [ok_bind] at hb
+    cases hc : checkFingerprint st with
+    | error e => rw [hc] at hb; cases hb
+    | ok v =>
+      rw [hc] at hb
+      cases hb
+      exact this
+  rcases hq with rfl | rfl <;> rcases hd with rfl | rfl
+  · exact key _ _ (by decide) (by decide) (by decide) (by decide) (by decide) (by decide) ha hb
+  · exact key _ _ (by decide) (by decide) (by decide) (by decide) (by decide) (by decide) ha hb
+  · exact key _ _ (by decide) (by decide) (by decide) (by decide) (by decide) (by decide) ha hb
+  · exact key _ _ (by decide) (by decide) (by decide) (by decide) (by decide) (by decide) ha hb
 
 /-- **C12, quote shift, tokens.** -/
 theorem quote_shift_tokens (x : Bytes) (hx : x ≠ []) (q : UInt8) (d : Nat) (hq : q = 39 ∨ q = 34)
